@@ -398,6 +398,30 @@ InitWarm2 ==
                     preemptOther |-> FALSE, preemptSelf |-> TRUE, originator |-> FALSE, node |-> ""],
                    [op |-> "schedule"], WarmAsk >>
 SpecWarm2 == InitWarm2 /\ [][Next]_vars
+\* Warm start "full": both nodes registered and filled by one plain allocation each of one application.  A handful of further steps reaches reservations (an aged ask that fits no node), their release when the
+\* node or the application goes, allocation of the reserved ask when room appears on the reserved or on the other node.
+FullCap == CHOOSE c \in Caps : \A d \in Caps : c <= d
+FA == WG        \* (its leaf queue has no maximum in the MC layouts; the asks are plain ones without task group)
+FK1 == CHOOSE w \in Keys : \A x \in Keys : KeyRank[w] <= KeyRank[x]
+FK2 == CHOOSE w \in Keys \ {FK1} : \A x \in Keys \ {FK1} : KeyRank[w] <= KeyRank[x]
+FullAsk(k) == [op |-> "addAsk", app |-> FA, key |-> k, res |-> Res(FullCap), ph |-> FALSE, tg |-> "", aged |-> TRUE, reqNode |-> "", prio |-> 0,
+               preemptOther |-> FALSE, preemptSelf |-> TRUE, originator |-> FALSE, node |-> ""]
+InitFull ==
+      /\ node = [w \in Nodes |-> IF w = WN1 THEN [reg |-> TRUE, sched |-> TRUE, cap |-> FullCap, keys |-> {FK1}]
+                                  ELSE IF w = WN2 THEN [reg |-> TRUE, sched |-> TRUE, cap |-> FullCap, keys |-> {FK2}]
+                                  ELSE [reg |-> FALSE, sched |-> FALSE, cap |-> 0, keys |-> {}]]
+      /\ ask = [w \in Keys |-> IF w \in {FK1, FK2}
+                                THEN [st |-> "alloc", app |-> FA, size |-> FullCap, ph |-> FALSE, tg |-> "", node |-> IF w = FK1 THEN WN1 ELSE WN2, rel |-> "", released |-> FALSE, listed |-> TRUE]
+                                ELSE NoAsk]
+      /\ app = [w \in Apps |-> IF w = FA THEN [st |-> "Running", known |-> TRUE] ELSE [st |-> "none", known |-> FALSE]]
+      /\ qal = [q \in Leaves |-> IF q = AppLeaf[FA] THEN 2 * FullCap ELSE 0]
+      /\ resv = {} /\ sv = [w \in Keys |-> IF w \in {FK1, FK2} THEN "bound" ELSE "none"] /\ pend = <<>> /\ bad = {} /\ den = {}
+      /\ hist = << [op |-> "addNode", node |-> WN1, cap |-> Res(FullCap), drained |-> FALSE],
+                   [op |-> "addNode", node |-> WN2, cap |-> Res(FullCap), drained |-> FALSE],
+                   [op |-> "addApp", app |-> FA, queue |-> AppLeaf[FA], user |-> "u0", groups |-> <<"g1">>, tags |-> [w \in {} |-> ""],
+                    gang |-> TRUE, style |-> "Soft", phAsk |-> Res(4), forced |-> FALSE],
+                   FullAsk(FK1), FullAsk(FK2), [op |-> "schedule"], [op |-> "schedule"] >>
+SpecFull == InitFull /\ [][Next]_vars
 
 (* ================================================================== invariants (the listed properties on the design) *)
 TypeOK == /\ \A n \in Nodes : node[n].keys \subseteq Keys
